@@ -28,6 +28,7 @@ type Universe struct {
 	contracts map[string]*Contract
 	specFuncs map[string]*SpecFunc
 	ghosts    map[string]*GhostField
+	ghostGlobals map[string]*GhostField
 	lemmas    []*Lemma
 	bvTypes   map[string]bool
 	typeIDs   map[string]int
@@ -170,6 +171,13 @@ func (u *Universe) addSpec(sf *SpecFile, path string) error {
 		u.specFuncs[f.Name] = f
 	}
 	for _, g := range sf.Ghosts {
+		if g.Owner == "" {
+			if u.ghostGlobals == nil {
+				u.ghostGlobals = map[string]*GhostField{}
+			}
+			u.ghostGlobals[g.Name] = g
+			continue
+		}
 		u.ghosts[g.Owner+"."+g.Name] = g
 	}
 	for _, c := range sf.Contracts {
